@@ -10,7 +10,7 @@ for d in sorted(glob.glob("/verif/seeded/*/")):
     mid = os.path.basename(d.rstrip("/"))
     m = json.load(open(d + "meta.json"))
     summ = re.split(r"(?<=[.;])\s", m.get("summary", "").strip())[0][:170].replace("|", "/")
-    cr = m.get("checks_run", {})
+    cr = m.get("checks_run") or m.get("checks_run_wt", {})     # round 2 was run in a scratch worktree (seeded.py runwt)
     cells = []
     for c in sorted(cr):
         r = cr[c]
